@@ -35,6 +35,8 @@ ASSUMPTIONS = [
     "as the statement reads - at |lat| = 89.9 that is 0.19 micrometres on the ground",
     "a base may be handed over as GeoCoords or as ECEFCoords (both documented); Track records it in geographic form, so a track "
     "that went out with an ECEF base comes back through base.toGeoCoords() - that asymmetric pair is checked for single points too",
+    "sequences: a base object may be reused by many calls and edited in place between them (setX/setY/setZ or attribute "
+    "assignment); each conversion is judged with the value the base has when the call is made; conversions never modify the base",
     "UTM inverse and STANDARD_PROJ=2 (experimental stereographic branch) are outside the statement",
 ]
 
@@ -458,6 +460,95 @@ def strat_track():
                      st.integers(0, 5), _off_raw(), _geo(), st.integers(0, 5), _off_raw(), _geo()).map(build)
 
 
+# --- (ii-b) histories: the SAME base objects reused across conversions and edited in place ----------------------
+def body_sequence(case):
+    """A program keeps a few base objects, converts points and tracks with them, and now and then edits a base in place
+    (setters or attribute assignment - both public).  'For any base point' means the value the base has at the time of
+    the call: every conversion is judged against the closed form with the CURRENT value of the base."""
+    model = [tuple(b) for b in case["bases"]]
+    if not all(in_domain(b) for b in model):
+        return {"undef": True}
+    objs = [GeoCoords(*b) for b in model]
+    cls, edited_then_used = set(), 0
+    dirty = [False] * len(objs)
+    for n, st_ in enumerate(case["steps"]):
+        op = st_["op"]
+        if op == "edit":
+            k, new = st_["b"], tuple(st_["new"])
+            if not in_domain(new):
+                return {"undef": True}
+            o = objs[k]
+            if st_["how"] == "setters":
+                o.setX(new[0]); o.setY(new[1]); o.setZ(new[2])
+            elif st_["how"] == "attrs":
+                o.lon, o.lat, o.hgt = new
+            else:                                   # height only (same tangent point, other altitude)
+                new = (model[k][0], model[k][1], new[2])
+                o.setZ(new[2])
+            model[k] = new
+            dirty[k] = True
+            cls.add("edit-" + st_["how"])
+            continue
+        k, p = st_["b"], tuple(st_["p"])
+        if not in_domain(p):
+            return {"undef": True}
+        b, o = model[k], objs[k]
+        what = "step %d (%s) with base object #%d = %r%s" % (n, op, k, b, " (edited in place earlier)" if dirty[k] else "")
+        want = ref_enu(p, b)
+        if op == "geo-enu":
+            need_m("enu-not-east-north-up", enu_of(GeoCoords(*p).toENUCoords(o), "GeoCoords.toENUCoords"), want, TOL_M, what)
+        elif op == "ecef-enu":
+            need_m("enu-not-east-north-up", enu_of(ECEFCoords(*ref_ecef(*p)).toENUCoords(o), "ECEFCoords.toENUCoords"), want, TOL_M, what)
+        elif op == "enu-geo":
+            need_geo("enu-to-geo-wrong", geo_of(ENUCoords(*want).toGeoCoords(o), "ENUCoords.toGeoCoords"), p, what)
+        elif op == "enu-ecef":
+            need_m("enu-to-ecef-wrong", ecef_of(ENUCoords(*want).toECEFCoords(o), "ENUCoords.toECEFCoords"), ref_ecef(*p), TOL_M, what)
+        elif op == "base-origin":
+            need_m("base-not-origin", enu_of(GeoCoords(*b).toENUCoords(o), "GeoCoords.toENUCoords"), (0.0, 0.0, 0.0), TOL_FORM, what)
+        elif op == "track":
+            pts = [p] + [tuple(q) for q in st_.get("more", [])]
+            tr = _track(pts)
+            tr.toENUCoords(o)
+            got = _positions(tr, ENUCoords, what)
+            _pointwise(got, [ref_enu(q, b) for q in pts], TOL_M, what)
+            _base_is(tr, b, what)
+            tr.toGeoCoords()
+            _roundtrip(tr, pts, what + " and back")
+        else:
+            raise ValueError(op)
+        got_b = geo_of(o, "base object")
+        if got_b != tuple(float(v) for v in b):
+            raise Violation("base-object-modified", "%s: the base object now reads %r" % (what, got_b))
+        cls.add("op-" + op)
+        if dirty[k]:
+            edited_then_used += 1
+    if edited_then_used:
+        cls.add("conversion-after-in-place-edit")
+    return {"nt": edited_then_used > 0, "cls": sorted(cls)}
+
+
+def strat_sequence():
+    def build(t):
+        raws, steps = t
+        bases = [_mk_geo(r) for r in raws]
+        out = []
+        for (kind, k, raw, o, m, how, extra) in steps:
+            k %= len(bases)
+            if kind <= 1:
+                out.append({"op": "edit", "b": k, "new": _mk_geo(raw), "how": how})
+            else:
+                p = _near(bases[k], o) if m else _mk_geo(raw)
+                op = ["geo-enu", "ecef-enu", "enu-geo", "enu-ecef", "base-origin", "track", "geo-enu", "track"][kind - 2]
+                stp = {"op": op, "b": k, "p": p}
+                if op == "track":
+                    stp["more"] = [_near(p, oo) for oo in extra]
+                out.append(stp)
+        return {"bases": bases, "steps": out}
+    step = st.tuples(st.integers(0, 9), st.integers(0, 2), _geo_raw(), _off_raw(), st.booleans(),
+                     st.sampled_from(["setters", "attrs", "height"]), st.lists(_off_raw(), max_size=2))
+    return st.tuples(st.lists(_geo_raw(), min_size=1, max_size=3), st.lists(step, min_size=2, max_size=10)).map(build)
+
+
 # --- (iii) a fixed grid (small finite space, enumerated) ------------------------------------------
 GRID_LON = [-180.0, -179.999999, -135.0, -90.0, -1e-7, 0.0, 1e-7, 2.5, 45.0, 90.0, 179.999999, 180.0]
 GRID_LAT = [-LAT_MAX, -89.5, -89.0, -60.0, -1e-6, 0.0, 1e-6, 30.0, 48.85, 89.0, 89.5, LAT_MAX]
@@ -486,5 +577,7 @@ RULE = ("points: Hypothesis over lon/lat/h with explicit classes (antimeridian +
 SUBCHECKS = [
     SubCheck("grid", body_point, enum=enum_grid, rule="12 x 12 x 4 boundary grid, bases rotated over the same grid", qshards=2, tshards=2),
     SubCheck("points", body_point, strategy=strat_point, quick=20000, thorough=300000, qshards=8),
+    SubCheck("sequences", body_sequence, strategy=strat_sequence, quick=4000, thorough=80000, qshards=4,
+             rule="histories of conversions that reuse 1..3 base objects, with in-place edits of a base in between"),
     SubCheck("tracks", body_track, strategy=strat_track, quick=8000, thorough=100000, qshards=8),
 ]
